@@ -23,8 +23,9 @@ PROP = 'C20'
 LEVEL = 'model_checking'
 ASSUMPTIONS = [
     'model restriction: one global total order (symbolic ranks) induces the iteration order of every controlled set (Block.logic, '
-    'Block.wirevector_set, results of wirevector_subset/logic_subset, SimulationTrace.wires_to_track); plain set literals/comprehensions '
-    'inside PyRTL are not controlled; two (thorough: three) objects get symbolic ranks at a time, all others keep creation order',
+    'Block.wirevector_set, results of wirevector_subset/logic_subset, SimulationTrace.wires_to_track, every set()/set comprehension/'
+    'set literal evaluated inside pyrtl.simulation/importexport/visualization/analysis during the call - displays are rewritten to '
+    'set(...) calls from the current source, see control_set_displays); a set of wire NAMES is ordered like the wires; two (thorough: three) objects get symbolic ranks at a time, all others keep creation order',
     'real cross-process hash-seed behaviour is represented by this order model, not executed',
     'the sort-key collision search is a finite enumeration over names of length <= 4 from {a, b, A, 0, 1, _} (named as such)',
     'read-only: fingerprint as in C11; behaviour compared by the solver from the declared reset state',
@@ -102,8 +103,94 @@ designs.register_family('DET', build_det)
 # ------------------------------------------------------------------------------------------
 # order control
 
-class Ranked(set):
+class _SetMeta(type):
+    def __instancecheck__(cls, inst):
+        return isinstance(inst, set)
+
+
+_PATCHED = {}
+
+
+def control_set_displays():
+    """Set comprehensions and set literals inside PyRTL functions ({w.name for w in ...}) build builtin sets no module-level
+    override can reach. Regenerated from /repo's current source on every run: each function containing one is recompiled from
+    its own AST with the display rewritten to a call of the NAME `set` (same meaning while `set` is the builtin), and the live
+    function's code object is replaced, so that the order model below also governs those sets. Returns the rewritten sites."""
+    import ast
+    import importlib
+    import inspect
+    import pkgutil
+    import types
+    if _PATCHED:
+        return _PATCHED
+
+    class T(ast.NodeTransformer):
+        def __init__(self):
+            self.lines = []
+
+        def visit_SetComp(self, node):
+            self.generic_visit(node)
+            self.lines.append(node.lineno)
+            gen = ast.copy_location(ast.GeneratorExp(elt=node.elt, generators=node.generators), node)
+            return ast.copy_location(ast.Call(func=ast.copy_location(ast.Name(id='set', ctx=ast.Load()), node), args=[gen], keywords=[]), node)
+
+        def visit_Set(self, node):
+            self.generic_visit(node)
+            self.lines.append(node.lineno)
+            lst = ast.copy_location(ast.List(elts=node.elts, ctx=ast.Load()), node)
+            return ast.copy_location(ast.Call(func=ast.copy_location(ast.Name(id='set', ctx=ast.Load()), node), args=[lst], keywords=[]), node)
+
+    def codes(co, out):
+        for c in co.co_consts:
+            if isinstance(c, types.CodeType):
+                out[(c.co_name, c.co_firstlineno)] = c
+                codes(c, out)
+        return out
+
+    names = ['pyrtl.' + m.name for m in pkgutil.iter_modules(pyrtl.__path__)] + \
+            ['pyrtl.rtllib.' + m.name for m in pkgutil.iter_modules([pyrtl.__path__[0] + '/rtllib'])]
+    for name in names:
+        try:
+            mod = importlib.import_module(name)
+            src = inspect.getsource(mod)
+        except Exception:
+            continue
+        t = T()
+        tree = ast.fix_missing_locations(t.visit(ast.parse(src)))
+        if not t.lines:
+            continue
+        table = codes(compile(tree, mod.__file__, 'exec'), {})
+
+        def funcs_of(ns):
+            for v in list(ns.values()):
+                if isinstance(v, (staticmethod, classmethod)):
+                    v = v.__func__
+                if isinstance(v, property):
+                    for f in (v.fget, v.fset, v.fdel):
+                        if f is not None:
+                            yield f
+                elif isinstance(v, types.FunctionType):
+                    yield v
+                elif isinstance(v, type) and v.__module__ == mod.__name__:
+                    for f in funcs_of(vars(v)):
+                        yield f
+        for f in funcs_of(vars(mod)):
+            if f.__module__ != mod.__name__:
+                continue
+            co = f.__code__
+            last = max([co.co_firstlineno] + [ln for _, _, ln in co.co_lines() if ln] +
+                       [ln for c in codes(co, {}).values() for _, _, ln in c.co_lines() if ln])
+            hit = [ln for ln in t.lines if co.co_firstlineno <= ln <= last]
+            new = table.get((co.co_name, co.co_firstlineno))
+            if hit and new is not None and new.co_freevars == co.co_freevars:
+                f.__code__ = new
+                _PATCHED.setdefault(name, []).extend('%s:%d' % (f.__qualname__, ln) for ln in hit)
+    return _PATCHED
+
+
+class Ranked(set, metaclass=_SetMeta):
     """set whose iteration / pop order follows ranks: symbolic for the chosen objects, creation order for the rest"""
+    by_name = {}      # wire name -> wire: a set of NAMES is ordered like the wires that carry them
     sym_rank = {}     # id(obj) -> SymInt
     conc_rank = {}    # id(obj) -> int
     memo = {}
@@ -112,6 +199,7 @@ class Ranked(set):
     @classmethod
     def setup(cls, objs, chosen):
         cls.sym_rank, cls.conc_rank, cls.memo = {}, {}, {}
+        cls.by_name = {o.name: o for o in objs if isinstance(getattr(o, 'name', None), str)}
         for i, o in enumerate(objs):
             cls.conc_rank[id(o)] = 2 * i + 1
         for j, o in enumerate(chosen):
@@ -125,6 +213,15 @@ class Ranked(set):
 
     @classmethod
     def rank(cls, o):
+        if isinstance(o, str):
+            if o in cls.by_name:
+                return cls.rank(cls.by_name[o])
+            # other strings: any fixed order (by value, so that equal strings that are distinct objects agree)
+            k = ('str', o)
+            if k not in cls.conc_rank:
+                cls.counter[0] += 1
+                cls.conc_rank[k] = 1000 + 2 * cls.counter[0] + 1
+            return cls.conc_rank[k]
         r = cls.sym_rank.get(id(o))
         if r is not None:
             return r
@@ -136,23 +233,33 @@ class Ranked(set):
         return r
 
     @classmethod
+    def is_chosen(cls, o):
+        if isinstance(o, str):
+            o = cls.by_name.get(o)
+        return id(o) in cls.sym_rank
+
+    @staticmethod
+    def ident(o):
+        return ('str', o) if isinstance(o, str) else id(o)
+
+    @classmethod
     def less(cls, a, b):
         ra, rb = cls.rank(a), cls.rank(b)
         if not sym.is_sym(ra) and not sym.is_sym(rb):
             return ra < rb
-        k = (id(a), id(b))
+        k = (cls.ident(a), cls.ident(b))
         if k in cls.memo:
             return cls.memo[k]
         r = bool(ra < rb)
         cls.memo[k] = r
-        cls.memo[(id(b), id(a))] = not r
+        cls.memo[(k[1], k[0])] = not r
         return r
 
     def _ordered(self):
         items = list(set.__iter__(self))
-        conc = sorted([x for x in items if id(x) not in Ranked.sym_rank], key=lambda x: Ranked.rank(x))
+        conc = sorted([x for x in items if not Ranked.is_chosen(x)], key=lambda x: Ranked.rank(x))
         out = list(conc)
-        for x in [x for x in items if id(x) in Ranked.sym_rank]:
+        for x in [x for x in items if Ranked.is_chosen(x)]:
             i = 0
             while i < len(out) and Ranked.less(out[i], x):
                 i += 1
@@ -182,9 +289,33 @@ class Ranked(set):
     def difference(self, *o):
         return Ranked(set.difference(set(set.__iter__(self)), *o))
 
+    def __and__(self, o):
+        return Ranked(set.__and__(set(set.__iter__(self)), set(o)))
+
+    def intersection(self, *o):
+        return Ranked(set.intersection(set(set.__iter__(self)), *o))
+
+
+EMIT_MODULES = ['simulation', 'importexport', 'visualization', 'analysis']
+
 
 @contextlib.contextmanager
 def ordered_block(block):
+    import importlib
+    control_set_displays()
+    mods = [importlib.import_module('pyrtl.' + m) for m in EMIT_MODULES]
+    for m in mods:
+        m.__dict__['set'] = Ranked
+    try:
+        with _ordered_block(block):
+            yield
+    finally:
+        for m in mods:
+            m.__dict__.pop('set', None)
+
+
+@contextlib.contextmanager
+def _ordered_block(block):
     orig_ws, orig_ls = Block.wirevector_subset, Block.logic_subset
     saved_logic, saved_wires = block.logic, block.wirevector_set
 
@@ -407,6 +538,7 @@ def build_order_env():
     wiremod._reset_wire_indexers()
     from pyrtl import memory as memmod
     memmod._reset_memory_indexer()
+    control_set_displays()
     for m in mods:
         m.__dict__['set'] = BRanked
     try:
